@@ -23,9 +23,26 @@ for d in sorted(glob.glob(os.path.join(ROOT, "seeded", "*", "meta.json"))):
     if len(needs) > 260: needs = needs[:257] + "..."
     rows.append("| %s | %s | %s | %s | %s | %s |" % (name, m.get("property", ""), esc(needs), "yes" if m.get("confirmed") else "no", res, esc(msg)))
 seeded = "\n".join(rows)
+# as-built table from check.json + evidence
+rows = ["| id | package | level | technique (deciding method) | quick jobs | last quick run: evaluations / distinct non-trivial / wall | open findings |", "|---|---|---|---|---|---|---|"]
+cfg = {}
+for f in sorted(glob.glob(os.path.join(ROOT, "props", "*", "check.json"))):
+    cfg.update(json.load(open(f))["properties"])
+for pid in sorted(cfg):
+    pc = cfg[pid]
+    jobs = ", ".join("%s(%s%s)" % (j["name"], j.get("kind", "rapid"), (" %dx%d" % (j.get("shards", 1), j["checks"])) if j.get("checks") else (" x%d" % j.get("shards", 1))) for j in pc["tiers"]["quick"])
+    evp = os.path.join(ROOT, "evidence", pid + ".json")
+    evs = ""
+    if os.path.exists(evp):
+        e = json.load(open(evp))
+        if e.get("tier") == "quick":
+            evs = "%d / %d / %.0f s" % (e["coverage"]["evaluations"], e["coverage"]["distinct_nontrivial"], e["wall_s"])
+    openf = ", ".join(f["id"] for f in kf if f["property"] == pid and f["status"] == "open") or "none"
+    rows.append("| %s | %s | %s | %s | %s | %s | %s |" % (pid, pc["package"], pc["level"], esc(pc["manifest"]["technique"]), esc(jobs), evs, openf))
+asbuilt = "\n".join(rows)
 p = os.path.join(ROOT, "DESIGN.md")
 s = open(p).read()
-for key, body in (("findings", findings), ("seeded", seeded)):
+for key, body in (("findings", findings), ("seeded", seeded), ("asbuilt", asbuilt)):
     b, e = "<!-- BEGIN %s -->" % key, "<!-- END %s -->" % key
     if b in s:
         s = s[:s.index(b) + len(b)] + "\n" + body + "\n" + s[s.index(e):]
